@@ -9,13 +9,15 @@ From Gv Require Import lib.Bytes lib.Json lib.Gql lib.Exec
      C01.ProofsBase C01.ProofsFuel C01.ProofsSplit C01.ProofsSim C01.ProofsJoin C01.ProofsOverlap
      C01.ProofsTwoStep C01.ProofsViol C01.ProofsCtxBase C01.ProofsCtx C01.ProofsTwoStepWf C01.ProofsPlanAlg
      C01.ProofsPlan C01.ProofsPlanOk C01.ProofsDedup C01.ProofsListHop
-     C01.ProofsTvStatic C01.ProofsTvDefs C01.ProofsTvHidden C01.ProofsPlanGen C01.ProofsPlan2 C01.ProofsFuelSuff.
+     C01.ProofsTvStatic C01.ProofsTvDefs C01.ProofsTvHidden C01.ProofsPlanGen C01.ProofsPlan2 C01.ProofsFuelSuff C01.ProofsSelEq.
 Open Scope N_scope.
 
 Notation fetch3 := (list (nat * list name) * nat * list name)%type.
 Inductive pitem :=
 | PKeep (s : selection)
 | PDown (a : option name) (n : name) (args : list argument) (sh : fshape) (T : name) (sub : ptree)
+| PAbs (a : option name) (n : name) (args : list argument) (sh : fshape) (T : name)
+       (csel rsel : list selection) (alts : list (name * bool * ptree))
 with ptree :=
 | PT (items : list (nat * pitem)) (fetches : list (list (nat * list name) * nat * list name)).
 (* fetch: (deps, subgraph, representation fields); deps = [(source, the representation fields that source is asked for); ..]:
@@ -24,13 +26,30 @@ with ptree :=
 Definition pt_items (pt : ptree) := match pt with PT items _ => items end.
 Definition pt_fetches (pt : ptree) := match pt with PT _ fetches => fetches end.
 Definition item_key (it : pitem) : name :=
-  match it with PKeep s => sel_key s | PDown a n _ _ _ _ => response_name a n end.
+  match it with PKeep s => sel_key s | PDown a n _ _ _ _ => response_name a n | PAbs a n _ _ _ _ _ _ => response_name a n end.
+(* [PAbs]: a composite field whose objects are resolved per RUNTIME type (interface / union positions, or a selection with
+   inline fragments): [csel] the client's sub-selection verbatim, [rsel] the sub-selection the source is asked for (it selects
+   __typename), [alts] one plan tree per concrete object type, over the selections flattened at that type; the flag of an
+   alternative: the source is asked for __typename IN FRONT of the tree's projection (the planner's own __typename, where
+   neither the client nor a key asks for it); it is read for the runtime type and dropped *)
+Fixpoint find_alt (C : name) (alts : list (name * bool * ptree)) : option (bool * ptree) :=
+  match alts with
+  | [] => None
+  | (C', h, pt) :: r => if bytes_eqb C C' then Some (h, pt) else find_alt C r
+  end.
+(* the members without a leading __typename *)
+Definition drop_tn (l : list (bytes * json)) : list (bytes * json) :=
+  match l with
+  | (k, _) :: r => if bytes_eqb k s_typename then r else l
+  | [] => l
+  end.
 
 (* the client's selection, verbatim *)
 Fixpoint item_client (it : pitem) : selection :=
   match it with
   | PKeep s => s
   | PDown a n args sh T sub => SField a n args [] (pt_client sub)
+  | PAbs a n args sh T csel rsel alts => SField a n args [] csel
   end
 with pt_client (pt : ptree) : list selection :=
   match pt with
@@ -53,6 +72,7 @@ Fixpoint item_proj (it : pitem) : selection :=
   match it with
   | PKeep s => s
   | PDown a n args sh T sub => SField a n args [] (pt_proj sub)
+  | PAbs a n args sh T csel rsel alts => SField a n args [] rsel
   end
 with pt_proj (pt : ptree) : list selection :=
   match pt with
@@ -86,6 +106,9 @@ Fixpoint item_reqs (vdsM : list vardef) (frags : list fragment) (tn : bool) (pat
   match it with
   | PKeep _ => []
   | PDown a n args sh T sub => pt_reqs vdsM frags tn (path ++ [response_name a n]) T sub
+  | PAbs a n args sh T csel rsel alts =>
+    (fix goa (l : list (name * bool * ptree)) : list mreq3 :=
+       match l with [] => [] | (C, _, pt) :: r => pt_reqs vdsM frags tn (path ++ [response_name a n]) C pt ++ goa r end) alts
   end
 with pt_reqs (vdsM : list vardef) (frags : list fragment) (tn : bool) (path : list name) (T : name) (pt : ptree) : list mreq3 :=
   match pt with
@@ -157,11 +180,28 @@ Section Gw3.
     let '(v, e, viol) := r in (if viol then None else Some [(key, v)], e).
 
   (* the fetches of the fields of a position: every [PDown] field gets its value filled *)
-  Definition item_fetches (lift : fshape -> name -> ptree -> json -> vres) (items : list (nat * pitem)) : list (name * fetch_fun) :=
+  Definition item_fetches (lift : fshape -> name -> ptree -> json -> vres) (lifta : fshape -> list (name * bool * ptree) -> json -> vres)
+             (items : list (nat * pitem)) : list (name * fetch_fun) :=
     flat_map (fun ti => match snd ti with
                         | PKeep _ => []
                         | PDown a n args sh T' sub => [(response_name a n, fun v => vres_sres (response_name a n) (lift sh T' sub v))]
+                        | PAbs a n args sh T' csel rsel alts => [(response_name a n, fun v => vres_sres (response_name a n) (lifta sh alts v))]
                         end) items.
+
+  (* a value of the given shape, every object in it processed by [lo] *)
+  Definition lift_shape (lo : bool -> json -> vres) (sh : fshape) (v : json) : vres :=
+    match sh with
+    | ShObj nn => lo nn v
+    | ShList nnl nni =>
+      match v with
+      | JArr xs =>
+        let rs := map (lo nni) xs in
+        let errs := flat_map (fun r : vres => snd (fst r)) rs in
+        if existsb (fun r : vres => snd r) rs then (JNull, errs, nnl)
+        else (JArr (map (fun r : vres => fst (fst r)) rs), errs, false)
+      | _ => (v, [], false)
+      end
+    end.
 
   Fixpoint fill (k : nat) (T : name) (pt : ptree) (l1 : list (bytes * json)) : sres :=
     match k with
@@ -177,7 +217,7 @@ Section Gw3.
               (Some (map (fun ti => (item_key (snd ti),
                                      get_member (item_key (snd ti)) (match nth (fst ti) srcs None with Some m => m | None => [] end)))
                          items), ferrs) in
-          run_fetches (item_fetches (lift k') items) st0
+          run_fetches (item_fetches (lift k') (lifta k') items) st0
       end
     end
   with lift (k : nat) (sh : fshape) (T' : name) (sub : ptree) (v : json) : vres :=
@@ -204,6 +244,28 @@ Section Gw3.
         | _ => (v, [], false)
         end
       end
+    end
+  with lifta (k : nat) (sh : fshape) (alts : list (name * bool * ptree)) (v : json) : vres :=
+    match k with
+    | O => (JNull, [XOutOfFuel], true)
+    | S k' =>
+      (* the plan tree of the object's runtime type, read off its __typename member *)
+      lift_shape (fun (nn : bool) (x : json) =>
+                    match x with
+                    | JObj l =>
+                      match get_member s_typename l with
+                      | JStr C =>
+                        match find_alt C alts with
+                        | Some (h, sub) => match fill k' C sub (if h then drop_tn l else l) with
+                                      | (Some l', e) => (JObj l', e, false)
+                                      | (None, e) => (JNull, e, nn)
+                                      end
+                        | None => (x, [], false)
+                        end
+                      | _ => (x, [], false)
+                      end
+                    | _ => (x, [], false)
+                    end) sh v
     end.
 
   (* ---- the root: one request per root subgraph, the answers read in the client's order, every root field filled ---- *)
@@ -217,7 +279,7 @@ Section Gw3.
                                get_member (r3_key d) (match fst (root_resp3 (r3_root d) ds) with Some l => l | None => [] end))) ds),
           errs).
   Definition gateway3 (k : nat) (ds : list rfield3) : sres :=
-    run_fetches (item_fetches (lift k) (map (fun d => (r3_root d, r3_item d)) ds)) (root_state3 ds).
+    run_fetches (item_fetches (lift k) (lifta k) (map (fun d => (r3_root d, r3_item d)) ds)) (root_state3 ds).
 
   Definition mono_client3 (fM : nat) (ds : list rfield3) : sres :=
     exec_sels sc U frags vars Mono fM Q ovQ (map (fun d => item_client (r3_item d)) ds) [].
@@ -237,9 +299,17 @@ Definition item_unaliased (K : list name) (it : pitem) : bool :=
 Definition src_sub (cur : nat) (fetches : list (fetch3)) (t : nat) : nat :=
   match t with O => cur | S j => match nth_error fetches j with Some (_, si, _) => si | None => cur end end.
 
+Definition flat_is (fl : flat) (l : list selection) : bool :=
+  match fl with FlatOk l' => sels_eqb l' l | FlatBad _ => false end.
+(* the selection asks for __typename itself (no alias, no arguments) *)
+Definition has_tn_sel (l : list selection) : bool :=
+  existsb (fun s => match s with SField None n [] [] [] => bytes_eqb n s_typename | _ => false end) l.
+Definition abs_fuel (csel rsel : list selection) : nat := S (sels_size csel + sels_size rsel).
+
 Section Static3.
   Variables (sc : schema) (subs : list schema) (frags : list fragment) (vdsM : list vardef) (supM : list (bytes * json)).
   Variable kq : nat.
+  Variable ab : bool.      (* positions resolved per runtime type ([PAbs]) allowed *)
   Variable decls : list (name * list name).
   Variable rdecls : list rdecl.
   Variable tn : bool.
@@ -294,6 +364,22 @@ Section Static3.
         negb (bytes_eqb n s_typename) && field_ty_ok T n sh T' &&
         match is_leaf_kind sc T' with Some false => true | _ => false end &&
         pt_static_b k' T' sub
+      | PAbs a n args sh T' csel rsel alts =>
+        ab && negb (bytes_eqb n s_typename) && field_ty_ok T n sh T' &&
+        match is_leaf_kind sc T' with Some false => true | _ => false end &&
+        negb (bytes_eqb T' s_Entity) &&
+        sels_nospread csel && sels_nospread rsel &&
+        (* every object type the field can return has its plan tree, over the selections flattened at that type *)
+        forallb (fun td => negb (is_obj_kind (td_kind td) && type_applies sc (td_name td) T') ||
+                           match find_alt (td_name td) alts with
+                           | Some (h, sub) =>
+                             flat_is (flatten sc frags vars (abs_fuel csel rsel) (td_name td) csel) (pt_client sub) &&
+                             flat_is (flatten sc frags vars (abs_fuel csel rsel) (td_name td) rsel)
+                                     (if h then tn_sel :: pt_proj sub else pt_proj sub) &&
+                             (if h then sels_top_nokey s_typename (pt_proj sub) else has_tn_sel (pt_proj sub)) &&
+                             pt_static_b k' (td_name td) sub
+                           | None => false
+                           end) (s_types sc)
       end
     end.
 
@@ -304,19 +390,24 @@ Section Static3.
   Definition rfield3_static_b (k : nat) (d : rfield3) : bool :=
     (if is_typename_leaf (r3_item d) then Nat.eqb (r3_root d) (length subs)
      else
-       negb (bytes_eqb (match r3_item d with PKeep (SField _ n _ _ _) => n | PDown _ n _ _ _ _ => n | _ => [] end) s_typename) &&
+       negb (bytes_eqb (match r3_item d with PKeep (SField _ n _ _ _) => n | PDown _ n _ _ _ _ => n | PAbs _ n _ _ _ _ _ _ => n | _ => [] end) s_typename) &&
        Nat.ltb (r3_root d) (length subs) &&
        req_ok_b (sub_at' (r3_root d)) frags vars (fun _ => true) kq Q [item_proj (r3_item d)]) &&
     sels_noent [item_proj (r3_item d)] &&
     item_static_b k Q (r3_item d).
 
   (* THE VALIDATOR OF PLAN TREES *)
-  Definition tv3_static_b (k : nat) (ds : list rfield3) : bool :=
+  Definition tvg_static_b (k : nat) (ds : list rfield3) : bool :=
     forallb (config_wf_b sc) subs &&
     names_distinct (map r3_key ds) &&
     forallb (fun vd => not_repr (vd_name vd)) vdsM &&
     forallb (rfield3_static_b k) ds.
 End Static3.
+(* the validator of plan trees without / with positions resolved per runtime type *)
+Definition tv3_static_b sc subs frags vdsM supM kq decls rdecls k ds : bool :=
+  tvg_static_b sc subs frags vdsM supM kq false decls rdecls k ds.
+Definition tv4_static_b sc subs frags vdsM supM kq decls rdecls k ds : bool :=
+  tvg_static_b sc subs frags vdsM supM kq true decls rdecls k ds.
 
 (* ---- fuel: every selection list a plan tree executes (recursively) ---- *)
 Fixpoint pt_need (sc : schema) (pt : ptree) : nat :=
@@ -328,12 +419,26 @@ Fixpoint pt_need (sc : schema) (pt : ptree) : nat :=
             ((fix go (l : list (nat * pitem)) : nat :=
                 match l with
                 | [] => O
-                | (_, it) :: r => Nat.max (match it with PDown _ _ _ _ _ sub => pt_need sc sub | PKeep _ => O end) (go r)
+                | (_, it) :: r => Nat.max (match it with
+                                           | PDown _ _ _ _ _ sub => pt_need sc sub
+                                           | PAbs _ _ _ _ _ csel rsel alts =>
+                                             (fix goa (l : list (name * bool * ptree)) : nat :=
+                                                match l with [] => abs_fuel csel rsel | (_, _, pt) :: r' => Nat.max (pt_need sc pt) (goa r') end) alts
+                                           | PKeep _ => O end) (go r)
                 end) items)))
+  end.
+Definition alts_need (sc : schema) (csel rsel : list selection) (alts : list (name * bool * ptree)) : nat :=
+  (fix goa (l : list (name * bool * ptree)) : nat :=
+     match l with [] => abs_fuel csel rsel | (_, _, pt) :: r' => Nat.max (pt_need sc pt) (goa r') end) alts.
+Definition sub_need (sc : schema) (it : pitem) : nat :=
+  match it with
+  | PDown _ _ _ _ _ sub => pt_need sc sub
+  | PAbs _ _ _ _ _ csel rsel alts => alts_need sc csel rsel alts
+  | PKeep _ => O
   end.
 Definition item_need (sc : schema) (it : pitem) : nat :=
   Nat.max (fuel_bound sc [item_proj it] + 10) (Nat.max (fuel_bound sc [item_client it] + 10)
-    (match it with PDown _ _ _ _ _ sub => pt_need sc sub | PKeep _ => O end)).
+    (sub_need sc it)).
 Definition ds_need (sc : schema) (ds : list rfield3) : nat :=
   Nat.max (fuel_bound sc (map (fun d => item_proj (r3_item d)) ds) + 10)
     (Nat.max (fuel_bound sc (map (fun d => item_client (r3_item d)) ds) + 10)
@@ -351,6 +456,11 @@ Definition lists_ok_b (sc : schema) (U : universe) : bool :=
 Definition univ3_contract_b (sc : schema) (subs : list schema) (decls : list (name * list name)) (rdecls : list rdecl) (U : universe) : bool :=
   univ_contract_b sc decls rdecls subs U.
 
+(* for positions resolved per runtime type: every entity has a declared object type *)
+Definition types_ok_b (sc : schema) (U : universe) : bool := forallb (fun e => declared_obj sc (en_type e)) U.
+Definition univ4_contract_b (sc : schema) (subs : list schema) (decls : list (name * list name)) (rdecls : list rdecl) (U : universe) : bool :=
+  univ3_contract_b sc subs decls rdecls U && types_ok_b sc U.
+
 (* ---- the statements of the induction over plan trees ---- *)
 Section Spec3.
   Variable U : universe.
@@ -359,6 +469,7 @@ Section Spec3.
   Variable tn : bool.
   Variable decls : list (name * list name).
   Variable rdecls : list rdecl.
+  Variable ab : bool.
   Notation vars := (pvars vdsM supM).
 
   (* monolithic execution on an entity *)
@@ -372,18 +483,25 @@ Section Spec3.
       let x := vres_sres key (lift U sc subs [] vdsM supM f2 tn k sh T' sub v) in (fst x, e0 ++ snd x)
     | _ => r
     end.
+  Definition tr3a (k : nat) (key : name) (sh : fshape) (alts : list (name * bool * ptree)) (r : sres) : sres :=
+    match r with
+    | (Some [(_, v)], e0) =>
+      let x := vres_sres key (lifta U sc subs [] vdsM supM f2 tn k sh alts v) in (fst x, e0 ++ snd x)
+    | _ => r
+    end.
 
   (* POSITION: the object of an entity [e] as its source returned it (projection), filled, is the object the monolith
      returns for the client's selection; a projection that is already null makes the client's selection null *)
   Definition PS_at (k : nat) : Prop :=
     forall (T : name) (pt : ptree) (e : entity) (p : list pel),
-      pt_static_b sc subs [] vdsM supM kq decls rdecls k T pt = true ->
+      pt_static_b sc subs [] vdsM supM kq ab decls rdecls k T pt = true ->
       In e U -> en_type e = T ->
       (pt_need sc pt <= f2)%nat ->
       match mex f2 T e (pt_proj pt) p with
       | (Some l1, e1) =>
         fst (fill U sc subs [] vdsM supM f2 tn k T pt l1) = fst (mex f2 T e (pt_client pt) p) /\
-        (e1 ++ snd (fill U sc subs [] vdsM supM f2 tn k T pt l1) = [] <-> snd (mex f2 T e (pt_client pt) p) = [])
+        (e1 ++ snd (fill U sc subs [] vdsM supM f2 tn k T pt l1) = [] <-> snd (mex f2 T e (pt_client pt) p) = []) /\
+        (has_tn_sel (pt_proj pt) = true -> get_member s_typename l1 = JStr T)
       | (None, _) => fst (mex f2 T e (pt_client pt) p) = None
       end.
 
@@ -391,9 +509,19 @@ Section Spec3.
   Definition FL_at (k : nat) : Prop :=
     forall (T : name) (e : entity) (a : option name) (n : name) (args : list argument) (sh : fshape) (T' : name) (sub : ptree)
            (p q : list pel),
-      item_static_b sc subs [] vdsM supM kq decls rdecls k T (PDown a n args sh T' sub) = true ->
+      item_static_b sc subs [] vdsM supM kq ab decls rdecls k T (PDown a n args sh T' sub) = true ->
       In e U -> en_type e = T ->
       (item_need sc (PDown a n args sh T' sub) <= f2)%nat ->
       sres_weq (tr3 k (response_name a n) sh T' sub (mex f2 T e [SField a n args [] (pt_proj sub)] q))
                (mex f2 T e [SField a n args [] (pt_client sub)] p).
+
+  (* FIELD resolved per runtime type *)
+  Definition FA_at (k : nat) : Prop :=
+    forall (T : name) (e : entity) (a : option name) (n : name) (args : list argument) (sh : fshape) (T' : name)
+           (csel rsel : list selection) (alts : list (name * bool * ptree)) (p q : list pel),
+      item_static_b sc subs [] vdsM supM kq ab decls rdecls k T (PAbs a n args sh T' csel rsel alts) = true ->
+      In e U -> en_type e = T ->
+      (item_need sc (PAbs a n args sh T' csel rsel alts) <= f2)%nat ->
+      sres_weq (tr3a k (response_name a n) sh alts (mex f2 T e [SField a n args [] rsel] q))
+               (mex f2 T e [SField a n args [] csel] p).
 End Spec3.
